@@ -292,7 +292,7 @@ fn c04_resize_step() {
 //@ assumes: table invariant
 //@ desc: trim() leaves exactly the k smallest hashes (nothing changes when <= k are retained) with theta' = (k+1)-th smallest; reset() restores the initial state (no entries, theta = initial theta, initial table size)
 #[kani::proof]
-#[kani::unwind(10)]
+#[kani::unwind(34)]
 #[kani::stub(<[u64]>::select_nth_unstable, model_select_nth)]
 fn c04_trim_reset() {
     let e: [u64; 4] = kani::any();
